@@ -1,194 +1,191 @@
-import JunoModel.C15.ProofsRefine
+import JunoModel.C15.ProofsInst
 /-! Lemmas behind the property theorems of `Props.lean`. -/
 namespace Juno.C15
 
 /-! ### refinement over whole sequences -/
 
-theorem run_sim (cfg : Cfg) : ∀ (ops : List Op) (wm : World MBatch MIter) (ws : World SBatch SIter),
-    R wm ws → inContract cfg ws ops = true →
-    run (memImpl cfg) wm ops = run specImpl ws ops ∧ R (exec (memImpl cfg) wm ops) (exec specImpl ws ops) := by
+/-- the boundary for an implementation with `S : Sim M` -/
+def inBoundary {B I : Type} {M : Impl B I} (S : Sim M) : World SBatch SIter → List Op → Bool
+  | _, [] => true
+  | w, op :: rest =>
+    documented w op && S.okOp op && (!S.needF5 || f5Free (step specImpl w op).1) &&
+      inBoundary S (step specImpl w op).1 rest
+
+theorem run_sim {B I : Type} {M : Impl B I} (S : Sim M) :
+    ∀ (ops : List Op) (wm : World B I) (ws : World SBatch SIter),
+    R S wm ws → inBoundary S ws ops = true →
+    run M wm ops = run specImpl ws ops ∧ R S (exec M wm ops) (exec specImpl ws ops) := by
   intro ops
   induction ops with
   | nil => intro wm ws h _; exact ⟨rfl, h⟩
   | cons op rest ih =>
     intro wm ws h hc
-    simp only [inContract, Bool.and_eq_true] at hc
-    have hs := step_sim cfg h op hc.1
+    simp only [inBoundary, Bool.and_eq_true, Bool.or_eq_true, Bool.not_eq_true'] at hc
+    have hs := step_sim S h op hc.1.1.1 hc.1.1.2 (by
+      intro hn
+      rcases hc.1.2 with h' | h'
+      · rw [hn] at h'; cases h'
+      · exact h')
     have := ih _ _ hs.2 hc.2
     simp only [run, exec]
     exact ⟨by rw [hs.1, this.1], this.2⟩
 
-/-! ### the store only changes at commit points -/
+theorem inBoundary_mem (c : MemCfg) : ∀ (ops : List Op) (w : World SBatch SIter),
+    inBoundary (memSim c) w ops = inContract c w ops := by
+  intro ops
+  induction ops with
+  | nil => intro w; rfl
+  | cons op rest ih =>
+    intro w
+    simp only [inBoundary, inContract, ih]
+    rfl
 
-/-- ops that may change the store content -/
-def Op.commits : Op → Bool
-  | .put _ _ | .del _ | .delRange _ _ | .bwrite _ | .close => true
-  | .update _ fail _ => !fail
-  | _ => false
+theorem inBoundary_peb : ∀ (ops : List Op) (w : World SBatch SIter),
+    inBoundary pebSim w ops = inDocumented w ops := by
+  intro ops
+  induction ops with
+  | nil => intro w; rfl
+  | cons op rest ih =>
+    intro w
+    simp only [inBoundary, inDocumented, ih]
+    simp [pebSim]
 
-section
-variable {B I : Type} (M : Impl B I)
-
-theorem movePos_db (w : World B I) (i : Nat) (f : I → I × Bool) : (movePos M w i f).1.db = w.db := by
-  unfold movePos
-  cases w.iters i with
-  | none => rfl
-  | some x => cases x <;> rfl
-
-theorem movePos_snaps (w : World B I) (i : Nat) (f : I → I × Bool) :
-    (movePos M w i f).1.snaps = w.snaps ∧ (movePos M w i f).1.ns = w.ns := by
-  unfold movePos
-  cases w.iters i with
-  | none => exact ⟨rfl, rfl⟩
-  | some x => cases x <;> exact ⟨rfl, rfl⟩
-
-theorem step_db_of_not_commits (w : World B I) (op : Op) (h : op.commits = false) :
-    (step M w op).1.db = w.db := by
-  cases op <;> simp only [Op.commits, Bool.true_eq_false, Bool.not_eq_false'] at h <;> simp only [step]
-  all_goals first
-    | exact movePos_db M w _ _
-    | rfl
-    | (subst h; split <;> rfl)
-    | (split <;> first | rfl | (split <;> first | rfl | (split <;> rfl)))
-
-theorem exec_db_of_no_commit : ∀ (ops : List Op) (w : World B I), (ops.all (fun o => !o.commits)) = true →
-    (exec M w ops).db = w.db := by
+/-- inside db/memory's boundary is inside the documented contract -/
+theorem inDocumented_of_inContract (c : MemCfg) : ∀ (ops : List Op) (w : World SBatch SIter),
+    inContract c w ops = true → inDocumented w ops = true := by
   intro ops
   induction ops with
   | nil => intro w _; rfl
   | cons op rest ih =>
     intro w h
-    simp only [List.all_cons, Bool.and_eq_true, Bool.not_eq_true'] at h
-    simp only [exec]
-    rw [ih _ h.2, step_db_of_not_commits M w op h.1]
+    simp only [inContract, Bool.and_eq_true] at h
+    simp only [inDocumented, Bool.and_eq_true]
+    exact ⟨h.1.1.1, ih _ h.2⟩
 
-/-! ### snapshots -/
+/-! ### the contract's scans -/
 
-theorem step_snap_stable (w : World B I) (op : Op) (s : Nat) (hs : s < w.ns) (hne : op ≠ .sclose s) :
-    (step M w op).1.snaps s = w.snaps s ∧ s < (step M w op).1.ns := by
-  cases op <;> simp only [step]
-  case snap =>
-    split
-    · exact ⟨rfl, hs⟩
-    · refine ⟨?_, Nat.lt_succ_of_lt hs⟩
-      exact upd_other _ _ _ (Nat.ne_of_lt hs)
-  case sclose s' =>
-    have : s ≠ s' := by intro e; subst e; exact hne rfl
-    split
-    · exact ⟨rfl, hs⟩
-    · exact ⟨upd_other _ _ _ this, hs⟩
-  case first i => have := movePos_snaps M w i M.ifirst; exact ⟨by rw [this.1], by rw [this.2]; exact hs⟩
-  case next i => have := movePos_snaps M w i M.inext; exact ⟨by rw [this.1], by rw [this.2]; exact hs⟩
-  case prev i => have := movePos_snaps M w i M.iprev; exact ⟨by rw [this.1], by rw [this.2]; exact hs⟩
-  case seek i t =>
-    have := movePos_snaps M w i (fun it => M.iseek it t); exact ⟨by rw [this.1], by rw [this.2]; exact hs⟩
-  all_goals first
-    | exact ⟨rfl, hs⟩
-    | exact ⟨trivial, hs⟩
-    | (split <;> first | exact ⟨rfl, hs⟩ | (split <;> first | exact ⟨rfl, hs⟩ | (split <;> exact ⟨rfl, hs⟩)))
+theorem spec_scanLoop_at (ks : KV) : ∀ (fuel i : Nat), i < ks.length → ks.length - i ≤ fuel →
+    scanLoop specImpl fuel ⟨ks, .at i⟩ true = ks.drop i := by
+  intro fuel
+  induction fuel with
+  | zero => intro i h1 h2; omega
+  | succ f ih =>
+    intro i h1 h2
+    have hcur : specImpl.icur ⟨ks, .at i⟩ = some ks[i] := by
+      show (ks[i]? : Option (Key × Val)) = some ks[i]
+      exact List.getElem?_eq_getElem h1
+    simp only [scanLoop, if_true, hcur]
+    rw [List.drop_eq_getElem_cons h1]
+    congr 1
+    by_cases hn : i + 1 < ks.length
+    · have e : specImpl.inext ⟨ks, .at i⟩ = (⟨ks, .at (i + 1)⟩, true) := by
+        simp [specImpl, SIter.next, SIter.ret, SIter.cur, hn]
+      rw [e]
+      exact ih (i + 1) hn (by omega)
+    · have e : specImpl.inext ⟨ks, .at i⟩ = (⟨ks, .after⟩, false) := by
+        simp [specImpl, SIter.next, SIter.ret, SIter.cur, hn]
+      rw [e]
+      have : ks.drop (i + 1) = [] := List.drop_eq_nil_of_le (by omega)
+      rw [this]
+      cases f <;> simp [scanLoop]
 
-theorem exec_snap_stable : ∀ (ops : List Op) (w : World B I) (s : Nat), s < w.ns →
-    (∀ op ∈ ops, op ≠ .sclose s) → (exec M w ops).snaps s = w.snaps s := by
-  intro ops
-  induction ops with
-  | nil => intro w s _ _; rfl
-  | cons op rest ih =>
-    intro w s hs hne
-    have h1 := step_snap_stable M w op s hs (hne op List.mem_cons_self)
-    simp only [exec]
-    rw [ih _ s h1.2 (fun o ho => hne o (List.mem_cons_of_mem _ ho)), h1.1]
+/-- the contract scan lists exactly the entries whose key lies within the bounds, in store order -/
+theorem spec_scan (c : KV) (p : Key) (u : Bool) :
+    scan specImpl c p u = c.filter (fun x => specBound p u x.1) := by
+  unfold scan
+  have hlen : (c.filter (fun x => specBound p u x.1)).length ≤ c.length := List.length_filter_le _ _
+  generalize hks : c.filter (fun x => specBound p u x.1) = ks at hlen
+  have e0 : specImpl.imk c p u = ⟨ks, .unpos⟩ := by simp [specImpl, hks]
+  rw [e0]
+  by_cases hn : 0 < ks.length
+  · have e : specImpl.ifirst ⟨ks, .unpos⟩ = (⟨ks, .at 0⟩, true) := by
+      simp [specImpl, SIter.first, SIter.ret, SIter.cur, hn]
+    rw [e]
+    simpa using spec_scanLoop_at ks (c.length + 1) 0 hn (by omega)
+  · have h0 : ks = [] := by
+      cases ks with
+      | nil => rfl
+      | cons x r => simp at hn
+    subst h0
+    have e : specImpl.ifirst ⟨[], .unpos⟩ = (⟨[], .after⟩, false) := by
+      simp [specImpl, SIter.first, SIter.ret, SIter.cur]
+    rw [e]
+    simp [scanLoop]
 
-end
+theorem spec_rscanLoop_at (ks : KV) : ∀ (fuel i : Nat), i < ks.length → i + 1 ≤ fuel →
+    rscanLoop specImpl fuel ⟨ks, .at i⟩ true = (ks.take (i + 1)).reverse := by
+  intro fuel
+  induction fuel with
+  | zero => intro i h1 h2; omega
+  | succ f ih =>
+    intro i h1 h2
+    have hcur : specImpl.icur ⟨ks, .at i⟩ = some ks[i] := by
+      show (ks[i]? : Option (Key × Val)) = some ks[i]
+      exact List.getElem?_eq_getElem h1
+    simp only [rscanLoop, if_true, hcur]
+    rw [List.take_succ, List.getElem?_eq_getElem h1]
+    simp only [Option.toList_some, List.reverse_append, List.reverse_cons, List.reverse_nil, List.nil_append,
+      List.singleton_append]
+    congr 1
+    cases i with
+    | zero =>
+      have e : specImpl.iprev ⟨ks, .at 0⟩ = (⟨ks, .before⟩, false) := by
+        simp [specImpl, SIter.prev, SIter.ret, SIter.cur]
+      rw [e]
+      cases f <;> simp [rscanLoop]
+    | succ j =>
+      have hj : j < ks.length := by omega
+      have e : specImpl.iprev ⟨ks, .at (j + 1)⟩ = (⟨ks, .at j⟩, true) := by
+        simp [specImpl, SIter.prev, SIter.ret, SIter.cur, hj]
+      rw [e]
+      exact ih j hj (by omega)
 
-/-! ### iterators are copies -/
-
-/-- ops that address iterator `i` -/
-def Op.onIter (i : Nat) : Op → Bool
-  | .first j | .next j | .prev j | .seek j _ | .iclose j => j == i
-  | _ => false
-
-section
-variable {B I : Type} (M : Impl B I)
-
-theorem movePos_iters_other (w : World B I) (j i : Nat) (f : I → I × Bool) (h : i ≠ j) :
-    (movePos M w j f).1.iters i = w.iters i ∧ (movePos M w j f).1.ni = w.ni := by
-  unfold movePos
-  split
-  · exact ⟨rfl, rfl⟩
-  · exact ⟨rfl, rfl⟩
-  · exact ⟨upd_other _ _ _ h, rfl⟩
-
-theorem step_iter_stable (w : World B I) (op : Op) (i : Nat) (hi : i < w.ni) (hne : op.onIter i = false) :
-    (step M w op).1.iters i = w.iters i ∧ i < (step M w op).1.ni := by
-  cases op <;> simp only [Op.onIter, beq_eq_false_iff_ne, ne_eq] at hne <;> simp only [step]
-  case iter src p u =>
-    split
-    · exact ⟨rfl, Nat.lt_succ_of_lt hi⟩
-    · exact ⟨upd_other _ _ _ (Nat.ne_of_lt hi), Nat.lt_succ_of_lt hi⟩
-  case first j =>
-    have := movePos_iters_other M w j i M.ifirst (fun e => hne e.symm); exact ⟨this.1, by rw [this.2]; exact hi⟩
-  case next j =>
-    have := movePos_iters_other M w j i M.inext (fun e => hne e.symm); exact ⟨this.1, by rw [this.2]; exact hi⟩
-  case prev j =>
-    have := movePos_iters_other M w j i M.iprev (fun e => hne e.symm); exact ⟨this.1, by rw [this.2]; exact hi⟩
-  case seek j t =>
-    have := movePos_iters_other M w j i (fun it => M.iseek it t) (fun e => hne e.symm)
-    exact ⟨this.1, by rw [this.2]; exact hi⟩
-  case iclose j =>
-    have hji : i ≠ j := fun e => hne e.symm
-    split
-    · exact ⟨rfl, hi⟩
-    · exact ⟨rfl, hi⟩
-    · exact ⟨upd_other _ _ _ hji, hi⟩
-  all_goals first
-    | exact ⟨rfl, hi⟩
-    | exact ⟨trivial, hi⟩
-    | (split <;> first | exact ⟨rfl, hi⟩ | (split <;> first | exact ⟨rfl, hi⟩ | (split <;> exact ⟨rfl, hi⟩)))
-
-theorem exec_iter_stable : ∀ (ops : List Op) (w : World B I) (i : Nat), i < w.ni →
-    (ops.all (fun o => !o.onIter i)) = true → (exec M w ops).iters i = w.iters i := by
-  intro ops
-  induction ops with
-  | nil => intro w i _ _; rfl
-  | cons op rest ih =>
-    intro w i hi h
-    simp only [List.all_cons, Bool.and_eq_true, Bool.not_eq_true'] at h
-    have h1 := step_iter_stable M w op i hi h.1
-    simp only [exec]
-    rw [ih _ i h1.2 h.2, h1.1]
-
-end
-
-/-! ### batches built from an op list -/
-
-/-- the db/memory batch obtained by issuing the calls of `log` over a store content `d` -/
-def memBuild (cfg : Cfg) (d : KV) : List LogOp → MBatch → MBatch
-  | [], b => b
-  | .put k v :: rest, b => memBuild cfg d rest (b.put k v)
-  | .del k :: rest, b => memBuild cfg d rest (b.del k)
-  | .delRange s e :: rest, b => memBuild cfg d rest (b.delRange cfg d s e)
-
-theorem memBuild_RB (cfg : Cfg) (d : KV) (hd : Sorted d) : ∀ (log : List LogOp) (mb : MBatch) (sb : SBatch),
-    RB d mb sb → ∃ sz, RB d (memBuild cfg d log mb) ⟨sb.log ++ log, sz⟩ := by
-  intro log
-  induction log with
-  | nil => intro mb sb h; exact ⟨sb.size, by simpa [memBuild] using h⟩
-  | cons o rest ih =>
-    intro mb sb h
-    cases o with
-    | put k v =>
-      obtain ⟨sz, hsz⟩ := ih _ _ (RB_put h k v)
-      exact ⟨sz, by simpa [memBuild, specImpl] using hsz⟩
-    | del k =>
-      obtain ⟨sz, hsz⟩ := ih _ _ (RB_del h k)
-      exact ⟨sz, by simpa [memBuild, specImpl] using hsz⟩
-    | delRange s e =>
-      obtain ⟨sz, hsz⟩ := ih _ _ (RB_delRange cfg hd h s e)
-      exact ⟨sz, by simpa [memBuild, specImpl] using hsz⟩
+/-- the contract's reverse iteration from `t` lists, last to first, the entries in range that come
+before the seek position -/
+theorem spec_rscan (c : KV) (p : Key) (u : Bool) (t : Key) :
+    rscan specImpl c p u t =
+      ((c.filter (fun x => specBound p u x.1)).take (seekIdx t (c.filter (fun x => specBound p u x.1)))).reverse := by
+  unfold rscan
+  have hlen : (c.filter (fun x => specBound p u x.1)).length ≤ c.length := List.length_filter_le _ _
+  generalize hks : c.filter (fun x => specBound p u x.1) = ks at hlen
+  have e0 : specImpl.imk c p u = ⟨ks, .unpos⟩ := by simp [specImpl, hks]
+  rw [e0]
+  have hle := seekIdx_le t ks
+  generalize hj : seekIdx t ks = j at hle
+  have es : (specImpl.iseek ⟨ks, .unpos⟩ t).1 = ⟨ks, if j < ks.length then .at j else .after⟩ := by
+    simp [specImpl, SIter.seek, SIter.ret, hj]
+  show rscanLoop specImpl (c.length + 1) (specImpl.iprev (specImpl.iseek ⟨ks, .unpos⟩ t).1).1
+      (specImpl.iprev (specImpl.iseek ⟨ks, .unpos⟩ t).1).2 = _
+  rw [es]
+  cases j with
+  | zero =>
+    by_cases hn : 0 < ks.length
+    · have e : specImpl.iprev ⟨ks, if 0 < ks.length then .at 0 else .after⟩ = (⟨ks, .before⟩, false) := by
+        simp [specImpl, SIter.prev, SIter.ret, SIter.cur, hn]
+      rw [e]; simp [rscanLoop]
+    · have h0 : ks = [] := by
+        cases ks with
+        | nil => rfl
+        | cons x r => simp at hn
+      subst h0
+      simp [specImpl, SIter.prev, SIter.last, SIter.ret, SIter.cur, rscanLoop]
+  | succ i =>
+    have hi : i < ks.length := by omega
+    by_cases hn : i + 1 < ks.length
+    · have e : specImpl.iprev ⟨ks, if i + 1 < ks.length then .at (i + 1) else .after⟩ = (⟨ks, .at i⟩, true) := by
+        simp [specImpl, SIter.prev, SIter.ret, SIter.cur, hn, hi]
+      rw [e]
+      exact spec_rscanLoop_at ks (c.length + 1) i hi (by omega)
+    · have hlast : ks.length - 1 = i := by omega
+      have hpos : 0 < ks.length := by omega
+      have e : specImpl.iprev ⟨ks, if i + 1 < ks.length then .at (i + 1) else .after⟩ = (⟨ks, .at i⟩, true) := by
+        simp [specImpl, SIter.prev, SIter.last, SIter.ret, SIter.cur, hn, hi, hpos, hlast]
+      rw [e]
+      exact spec_rscanLoop_at ks (c.length + 1) i hi (by omega)
 
 /-! ### seek -/
 
-theorem seekIdx_before (t : Key) (ks : KV) : ∀ (i : Nat) (h : i < seekIdx t ks) (hi : i < ks.length),
+theorem seekIdx_before (t : Key) (ks : KV) : ∀ (i : Nat) (_ : i < seekIdx t ks) (hi : i < ks.length),
     lexLt ks[i].1 t = true := by
   induction ks with
   | nil => intro i h; simp [seekIdx] at h
@@ -246,7 +243,71 @@ theorem seek_least_aux (ks : KV) (hs : Sorted ks) (t : Key) :
     obtain ⟨i, hi, rfl⟩ := List.getElem_of_mem hx
     exact seekIdx_before t ks i (by omega) hi
 
+/-- on a sorted list the entries before the seek position are exactly those with key `< t` -/
+theorem take_seekIdx_eq_filter (t : Key) (ks : KV) (hs : Sorted ks) :
+    ks.take (seekIdx t ks) = ks.filter (fun x => lexLt x.1 t) := by
+  induction ks with
+  | nil => rfl
+  | cons x r ih =>
+    obtain ⟨k, v⟩ := x
+    have hr : Sorted r := (List.pairwise_cons.mp hs).2
+    have hx : ∀ y ∈ r, lexLt k y.1 = true := (List.pairwise_cons.mp hs).1
+    cases hle : lexLe t k
+    · have hlt : lexLt k t = true := by simpa [lexLe] using hle
+      simp only [seekIdx, hle, Bool.false_eq_true, if_false, List.take_succ_cons, List.filter_cons, hlt, if_true, ih hr]
+    · have hnlt : lexLt k t = false := by simpa [lexLe] using hle
+      have : r.filter (fun y => lexLt y.1 t) = [] := by
+        apply List.filter_eq_nil_iff.mpr
+        intro y hy
+        have h2 : lexLt t y.1 = true := lexLt_of_le_of_lt hle (hx y hy)
+        simp [lexLt_asymm _ _ h2]
+      simp only [seekIdx, hle, if_true, List.take_zero, List.filter_cons, hnlt, Bool.false_eq_true, if_false, this]
+
+/-! ### positions of the contract iterator -/
+
+theorem snext_after_stays (si : SIter) (h : si.next.cur = none) : si.next.next.cur = none := by
+  have hpos : si.next.pos = .after ∨ ∃ i, si.next.pos = .at i ∧ i < si.keys.length := by
+    cases hp : si.pos with
+    | unpos => by_cases hn : 0 < si.keys.length <;> simp [SIter.next, SIter.first, hp, hn]
+    | before => by_cases hn : 0 < si.keys.length <;> simp [SIter.next, SIter.first, hp, hn]
+    | «at» i => by_cases hn : i + 1 < si.keys.length <;> simp [SIter.next, hp, hn]
+    | after => simp [SIter.next, hp]
+  rcases hpos with hp | ⟨i, hp, hi⟩
+  · have : si.next.next = si.next := by
+      generalize si.next = s' at hp
+      simp [SIter.next, hp]
+    rw [this]; exact h
+  · have hk : si.next.keys = si.keys := snext_keys si
+    have : si.next.cur = some (si.keys[i]) := by
+      unfold SIter.cur
+      rw [hp]
+      simp only [hk]
+      exact List.getElem?_eq_getElem hi
+    rw [this] at h; cases h
+
 /-! ### reachable stores are sorted -/
+
+/-- ops that may change the store content -/
+def Op.commits : Op → Bool
+  | .put _ _ | .del _ | .delRange _ _ | .bwrite _ | .close | .getw _ _ _ _ => true
+  | .update _ fail _ => !fail
+  | _ => false
+
+theorem movePos_db {B I : Type} (M : Impl B I) (w : World B I) (i : Nat) (f : I → I × Bool) :
+    (movePos M w i f).1.db = w.db := by
+  unfold movePos
+  cases w.iters i with
+  | none => rfl
+  | some x => cases x <;> rfl
+
+theorem step_db_of_not_commits {B I : Type} (M : Impl B I) (w : World B I) (op : Op) (h : op.commits = false) :
+    (step M w op).1.db = w.db := by
+  cases op <;> simp only [Op.commits, Bool.true_eq_false, Bool.not_eq_false'] at h <;> simp only [step]
+  all_goals first
+    | exact movePos_db M w _ _
+    | rfl
+    | (subst h; split <;> rfl)
+    | (split <;> first | rfl | (split <;> first | rfl | (split <;> rfl)))
 
 theorem spec_step_sorted (w : World SBatch SIter) (op : Op) (h : ∀ d, w.db = some d → Sorted d) :
     ∀ d, (step specImpl w op).1.db = some d → Sorted d := by
@@ -266,6 +327,21 @@ theorem spec_step_sorted (w : World SBatch SIter) (op : Op) (h : ∀ d, w.db = s
       cases hd : w.db with
       | none => simp only [hd] at e; cases e
       | some d0 => simp only [hd, Option.some.injEq] at e; subst e; exact (h d0 hd).delRange a b
+    case getw src k k2 v2 =>
+      cases hr : w.read specImpl src with
+      | inl e' => simp only [hr] at e; exact h d e
+      | inr x =>
+        obtain ⟨g, hh, v⟩ := x
+        simp only [hr] at e
+        cases hg : g k with
+        | notfound => simp only [hg] at e; exact h d e
+        | err e' => simp only [hg] at e; exact h d e
+        | val vv =>
+          have hsre : specImpl.reentrant = true := rfl
+          simp only [hg, hsre, if_true] at e
+          cases hd : w.db with
+          | none => simp only [hd] at e; cases e
+          | some d0 => simp only [hd, Option.some.injEq] at e; subst e; exact (h d0 hd).put k2 v2
     case bwrite b =>
       cases hb : w.batches b with
       | none => simp only [hb] at e; exact h d e
@@ -291,5 +367,32 @@ theorem spec_exec_sorted : ∀ (ops : List Op) (w : World SBatch SIter), (∀ d,
   induction ops with
   | nil => intro w h; exact h
   | cons op rest ih => intro w h; exact ih _ (spec_step_sorted w op h)
+
+/-! ### batches built from an op list over a fixed store -/
+
+/-- the db/memory batch obtained by issuing the calls of `log` over a store content `d` -/
+def memBuild (d : KV) : List LogOp → MBatch → MBatch
+  | [], b => b
+  | .put k v :: rest, b => memBuild d rest (b.put k v)
+  | .del k :: rest, b => memBuild d rest (b.del k)
+  | .delRange s e :: rest, b => memBuild d rest (b.delRange d s e)
+
+theorem memBuild_rb (d : KV) (hd : Sorted d) : ∀ (log : List LogOp) (mb : MBatch) (sb : SBatch),
+    rbM true (some d) mb sb → ∃ sb', sb'.log = sb.log ++ log ∧ rbM true (some d) (memBuild d log mb) sb' := by
+  intro log
+  induction log with
+  | nil => intro mb sb h; exact ⟨sb, by simp, h⟩
+  | cons o rest ih =>
+    intro mb sb h
+    cases o with
+    | put k v =>
+      obtain ⟨sb', h1, h2⟩ := ih _ _ (rbM_put k v h)
+      exact ⟨sb', by rw [h1]; simp [specImpl], h2⟩
+    | del k =>
+      obtain ⟨sb', h1, h2⟩ := ih _ _ (rbM_del k h)
+      exact ⟨sb', by rw [h1]; simp [specImpl], h2⟩
+    | delRange s e =>
+      obtain ⟨sb', h1, h2⟩ := ih _ _ (rbM_delRange s e hd h)
+      exact ⟨sb', by rw [h1]; simp [specImpl], h2⟩
 
 end Juno.C15
